@@ -404,7 +404,45 @@ def run_uc_case(case):
     return {'fails': uc_core(case), 'nontrivial': True, 'n': 1}
 
 
-SCOPES = {'forms-agree': run_forms_case, 'malformed': run_malformed_case,
+def run_coo_probe_case(case):
+    """conformance probe of the *assumed* contract of scipy.sparse.coo_matrix that the proofs of coo_arrays_to_sparse /
+    dict_to_sparse rest on (contracts/sparse_converters.py): a mismatch is a wrong trusted base - a checker error, not a
+    violation of the property"""
+    from scipy.sparse import coo_matrix
+    rows, cols, (m, n) = case['rows'], case['cols'], case['shape']
+    L = len(rows)
+    vals = [float(k + 1) if k % 2 == 0 else 0.0 for k in range(L)]
+    inrange = m >= 0 and n >= 0 and all(0 <= r < m and 0 <= c < n for r, c in zip(rows, cols))
+    try:
+        M = coo_matrix((vals, (list(rows), list(cols))), shape=(m, n), dtype=float)
+        accepted = True
+    except ValueError:
+        accepted = False
+    if accepted != inrange:
+        raise RuntimeError('assumed contract sp.coo_matrix is wrong: accepted=%s for %r' % (accepted, case))
+    if accepted:
+        D = M.tocsr()
+        D.eliminate_zeros()
+        A = D.toarray()
+        for i in range(m):
+            for j in range(n):
+                ks = [k for k in range(L) if rows[k] == i and cols[k] == j]
+                if (not ks and A[i, j] != 0) or (len(ks) == 1 and A[i, j] != vals[ks[0]]):
+                    raise RuntimeError('assumed contract sp.coo_matrix is wrong: cell (%d, %d) for %r' % (i, j, case))
+    return {'fails': [], 'nontrivial': accepted and L > 0, 'n': 1}
+
+
+def coo_probe_cases(tier):
+    for L in range(0, 4 if tier == 'quick' else 5):
+        for rows in itertools.product(range(-1, 3), repeat=L):
+            for cols in itertools.product(range(-1, 3), repeat=L):
+                if L == 4 and (hash((rows, cols)) % 4):
+                    continue
+                for shape in ((0, 0), (1, 2), (2, 2), (3, 1), (2, 0), (-1, 2)):
+                    yield {'rows': list(rows), 'cols': list(cols), 'shape': list(shape)}
+
+
+SCOPES = {'coo-axiom-probe': run_coo_probe_case, 'forms-agree': run_forms_case, 'malformed': run_malformed_case,
           'from_adjacency': run_adjacency_case, 'uc': run_uc_case}
 
 
@@ -574,6 +612,11 @@ def run(rep):
                      % ('every 5th 2x3/3x2' if q else 'all 1x3, 3x1, 2x3, 3x2, every 7th 3x3', len(FORMS),
                         ', '.join('%s %d' % (k, len(v)) for k, v in parts)),
                      (c for _, v in parts for c in v), run_forms_case, exhaustive=True)
+        rt.run_scope(rep, 'coo-axiom-probe',
+                     'conformance probe of the assumed scipy contract sp.coo_matrix (not a proof): every coordinate list of '
+                     'length 0..%d over indices -1..2 (duplicates, negatives, out of range) x 6 shapes incl. empty and '
+                     'negative: accepted iff in range, unnamed cells zero, cells named once hold their value'
+                     % (3 if q else 4), coo_probe_cases(rep.tier), run_coo_probe_case, chunk=512, exhaustive=q)
         rt.run_scope(rep, 'malformed',
                      '4 base matrices (2x2 .. 3x3) x every form x {duplicate ID at every pair of positions, too few IDs '
                      '(first/last dropped), too many IDs, metadata of every shorter length / 1-2 longer, each of 9 '
